@@ -2,6 +2,7 @@ import CasbinVerif.Driver.Effector
 import CasbinVerif.Driver.Store
 import CasbinVerif.Driver.Enforcer
 import CasbinVerif.Driver.KeyMatch
+import CasbinVerif.Driver.Config
 /-
   casbin-model: the line-protocol driver.  Reads one operation per line on stdin and prints, for
   every line, `<model observation> ;; <spec observation> ;; <wf>` where `wf` tells whether the line
@@ -26,7 +27,7 @@ def stepLine (st : DState) (line : String) : DState × String :=
   match effectorOp ts with
   | some (m, s, wf) => (st, fmt m s wf)
   | none =>
-    match kmOp ts with
+    match (match kmOp ts with | some r => some r | none => cfgOp ts) with
     | some (m, s, wf) => (st, fmt m s wf)
     | none =>
     if comp == "store" then
